@@ -136,7 +136,7 @@ def gen_case(rng, nops):
                     b = rng.choice(sorted(sent))
                     ops.append(["block", b, sent[b][0], sent[b][1], 1])   # the same block again
                 else:
-                    ops.append(["block", 0, -1, [], 1])                   # genesis again
+                    continue
             elif kind == "notnext":
                 bad_id += 1
                 ops.append(["block", bad_id, 77, [], 1])
@@ -148,7 +148,7 @@ def gen_case(rng, nops):
                     bad_id += 1
                     ops.append(["block", bad_id, tip, [t], 0])
         elif k == "delay":
-            if sum(1 for o in ops if o[0] == "delaycheck") < 7:
+            if sum(1 for o in ops if o[0] == "delaycheck") < 5:
                 ops.append(["delaycheck"])
         elif k == "advance":
             ops.append(["advance", rng.choice([25000, 25000, 50000, 75000])])
@@ -250,7 +250,7 @@ CODES = {
     121: "C07 safe reported twice", 122: "C07 safe without trusted vouching", 123: "C07 safe despite known conflict",
     124: "C07 safe before delay", 125: "C07 safe for untracked tx", 126: "C07 safe on arrival (not local)",
     131: "C03 delivery before in sync", 141: "C05 new conflicting tx not unsafe", 142: "C05 earlier conflicting tx not reported unsafe",
-    143: "C03 matching tx not delivered", 151: "C06 block not announced first", 152: "C06 losing tx not cancelled exactly once",
+    143: "C03 matching tx not delivered", 144: "C05 re-seen delivered tx with new conflict not reported unsafe", 151: "C06 block not announced first", 152: "C06 losing tx not cancelled exactly once",
     153: "C03/C04/C11 block tx not notified with proof", 154: "C04 refused block delivered something",
     161: "C07 safe report while not in sync", 162: "C07 safe not reported when due", 171: "C11 delivered tx not fetchable",
     197: "trace length", 198: "tx step failed", 199: "undecodable observation",
@@ -258,7 +258,7 @@ CODES = {
 
 PROPERTY_CODES = {
     "C03": {111, 112, 113, 114, 115, 131, 143, 153},
-    "C05": {103, 141, 142},
+    "C05": {103, 141, 142, 144},
     "C06": {151, 152, 154},
     "C07": {101, 102, 103, 121, 122, 123, 124, 125, 126, 161, 162},
     "C11": {113, 121, 153, 171},
